@@ -722,3 +722,6 @@ func (s *Session) ElemAt(p *Path, suffix string, idx Scalar) (Val, string) {
 	}
 	return s.k.e.elemSym(so, idx), so.id
 }
+
+// ConstRat is the constant scalar r.
+func (s *Session) ConstRat(r *big.Rat) Scalar { return Scalar{v: rfPoly(PolyConst(r))} }
